@@ -65,6 +65,43 @@ def jsonable(x):
     return repr(x)
 
 
+ARG_SNAPSHOT = os.environ.get("VERIF_NO_ARG_SNAPSHOT") != "1"
+_SNAP_MAX = 200000
+
+
+def _snap_value(x):
+    try:
+        import pandas as pd
+    except Exception:  # noqa: BLE001
+        pd = None
+    if isinstance(x, np.ndarray):
+        if x.size > _SNAP_MAX or x.dtype == object:
+            return None
+        return (x.shape, x.dtype.str, x.tobytes())
+    if pd is not None and isinstance(x, pd.DataFrame):
+        if x.size > _SNAP_MAX:
+            return None
+        try:
+            return (x.shape, x.to_numpy(dtype=float).tobytes())
+        except (TypeError, ValueError):
+            return (x.shape, repr(x.to_numpy().tolist()))
+    return None
+
+
+def _snapshot_args(a, k):
+    out = []
+    items = [(f"#{i}", v) for i, v in enumerate(a)] + [(f"{key}=", v) for key, v in k.items()]
+    for label, v in items:
+        cand = [(label, v)]
+        if isinstance(v, (list, tuple)) and len(v) <= 16:
+            cand = [(f"{label}[{j}]", w) for j, w in enumerate(v)]
+        for lab, w in cand:
+            sv = _snap_value(w)
+            if sv is not None:
+                out.append((lab, w, sv))
+    return out
+
+
 class Obs:
     """What one execution observed."""
 
@@ -93,14 +130,25 @@ class Obs:
         return bool(cond)
 
     def lib(self, site, fn, *a, **k):
-        """Call the real library; an exception is a violation of the property at `site`."""
+        """Call the real library; an exception is a violation of the property at `site`.
+
+        Array and table arguments are the caller's own objects: a user script passes them again to the next call, so
+        a call that modifies one in place breaks every later use.  Their values are snapshotted before the call and
+        compared afterwards (clause `argument-untouched`; labels of a DataFrame are not part of the snapshot)."""
         self.transitions += 1
+        snaps = _snapshot_args(a, k) if ARG_SNAPSHOT else None
         try:
-            return fn(*a, **k)
+            r = fn(*a, **k)
         except HarnessError:
             raise
         except Exception as e:  # noqa: BLE001
             raise LibError(site, e) from e
+        if snaps:
+            for label, obj, before in snaps:
+                if _snap_value(obj) != before:
+                    self.fail(site, "argument-untouched", f"argument {label} ({type(obj).__name__}) was modified in place by the call")
+            self.fired.add("argument-untouched")
+        return r
 
 
 class Family:
@@ -244,7 +292,7 @@ def _run_chunk(task):
                 sig = (v["site"], v["clause"], v["cls"])
                 res["sigs"][sig] += 1
                 if res["sigs"][sig] <= 2 and len(res["violations"]) < MAX_VIOL_PER_CHUNK:
-                    res["violations"].append(dict(v, family=fam.name, index=i, chunk_start=start, prev_chunks=list(_PREV_CHUNKS[-3:]),
+                    res["violations"].append(dict(v, family=fam.name, index=i, chunk_start=start, prev_chunks=list(_PREV_CHUNKS[-3:]), first_chunk=(list(_PREV_CHUNKS[0]) if _PREV_CHUNKS else None),
                                                   case=fam.describe(case)))
         # determinism self-check on a fixed 1/97 slice
         if i % 97 == 0:
